@@ -208,6 +208,89 @@ func suiteC18(cfg Config, res *Result) {
 		c := cases[(i*7919+13)%len(cases)]
 		res.sample(fmt.Sprintf("%s(%s ; %s) = %s", c.f, c.v.Wire(), c.p.Wire(), c.impl))
 	}
+	// the kind of an integer does not matter: int8 … uint64 operands give what int / uint give
+	{
+		type mk func(int64) any
+		kinds := []mk{func(x int64) any { return int8(x) }, func(x int64) any { return int16(x) }, func(x int64) any { return int32(x) }, func(x int64) any { return int64(x) },
+			func(x int64) any { return uint8(x) }, func(x int64) any { return uint16(x) }, func(x int64) any { return uint32(x) }, func(x int64) any { return uint64(x) }, func(x int64) any { return uint(x) }}
+		for _, f := range []string{"add", "pluralize", "get_digit", "divisibleby", "floatformat", "integer", "float", "yesno", "length_is", "default", "center", "ljust", "truncatechars", "slice"} {
+			for _, x := range []int64{0, 1, 2, 7, 100, 123} {
+				for _, y := range []int64{0, 1, 2, 3} {
+					ref, e0 := pongo2.ApplyFilter(f, pongo2.AsValue(int(x)), pongo2.AsValue(int(y)))
+					for ki, k := range kinds {
+						res.Cases++
+						a, e1 := pongo2.ApplyFilter(f, pongo2.AsValue(k(x)), pongo2.AsValue(int(y)))
+						b, e2 := pongo2.ApplyFilter(f, pongo2.AsValue(int(x)), pongo2.AsValue(k(y)))
+						for j, r := range []*pongo2.Value{a, b} {
+							e := []*pongo2.Error{e1, e2}[j]
+							if (e != nil) != (e0 != nil) || (e == nil && r.String() != ref.String()) {
+								got := "error"
+								if e == nil {
+									got = r.String()
+								}
+								want := "error"
+								if e0 == nil {
+									want = ref.String()
+								}
+								res.add(Finding{Kind: "oracle", Proj: "filter", Sig: "c18-" + f + "-integer-kind", Case: fmt.Sprintf("%s(%d ; %d) with operand %d of integer kind #%d", f, x, y, j, ki), Impl: got, Model: "what int operands give: " + want})
+							}
+						}
+					}
+				}
+			}
+		}
+	}
+	// the loop variable of a list literal is a value like any other
+	{
+		lits := []struct {
+			src   string
+			elems []any
+		}{{"[1, 2, 3]", []any{1, 2, 3}}, {`["ab", "c", ""]`, []any{"ab", "c", ""}}, {"[1.5, 2.0]", []any{1.5, 2.0}}, {"[0, 12]", []any{0, 12}}}
+		fps := [][2]string{{"add", "1"}, {"integer", ""}, {"float", ""}, {"length", ""}, {"first", ""}, {"last", ""}, {"slice", `"1:"`}, {"center", "5"}, {"ljust", "4"}, {"pluralize", ""},
+			{"divisibleby", "2"}, {"floatformat", "1"}, {"get_digit", "1"}, {"yesno", ""}, {"default", `"d"`}, {"length_is", "1"}, {"upper", ""}, {"add", `"x"`}, {"truncatechars", "1"}}
+		forms := []string{"{% for x in LIT %}{{ x|F }};{% endfor %}", "{% set ll = LIT %}{% for x in ll %}{{ x|F }};{% endfor %}", "{% with ll=LIT %}{% for x in ll %}{% if x|F %}{% endif %}{{ x|F }};{% endfor %}{% endwith %}"}
+		for _, l := range lits {
+			for _, fp := range fps {
+				var want strings.Builder
+				ok := true
+				for _, e := range l.elems {
+					var pv *pongo2.Value
+					switch {
+					case fp[1] == "":
+						pv = pongo2.AsValue(nil)
+					case fp[1][0] == '"':
+						pv = pongo2.AsValue(strings.Trim(fp[1], `"`))
+					default:
+						var n int
+						fmt.Sscan(fp[1], &n)
+						pv = pongo2.AsValue(n)
+					}
+					r, err := pongo2.ApplyFilter(fp[0], pongo2.AsValue(e), pv)
+					if err != nil {
+						ok = false
+						break
+					}
+					want.WriteString(r.String() + ";")
+				}
+				if !ok {
+					continue
+				}
+				fsrc := fp[0]
+				if fp[1] != "" {
+					fsrc += ":" + fp[1]
+				}
+				for _, form := range forms {
+					src := "{% autoescape off %}" + strings.NewReplacer("LIT", l.src, "F", fsrc).Replace(form) + "{% endautoescape %}"
+					r := implRender(src, nil)
+					res.Cases++
+					res.DistinctNontrivial++
+					if r.Err != "" || r.Panicked || r.Out != want.String() {
+						res.add(Finding{Kind: "oracle", Proj: "filter", Sig: "c18-" + fp[0] + "-on-literal-item", Case: hx(src), Impl: r.String(), Model: "ApplyFilter on the items: ok " + hx(want.String())})
+					}
+				}
+			}
+		}
+	}
 	// widthratio through the template
 	wrN := 14
 	if cfg.Thorough() {
